@@ -183,8 +183,39 @@ func c16(c *Ctx) {
 				}
 			}
 		}
-		if n < 2 {
-			c.R.Unknown(load.FuncName(val)+": validated objects", c.pos(val.Pos()), "expected the Exists:true and Exists:false results")
+		// whatever is handed to the establish phase crossed a dry run (or is a
+		// missing object the revision will not create because it has no control)
+		sends := 0
+		for _, f := range closures(val) {
+			var gates []cfgx.Edge
+			for _, x := range calls(f, est+"update", est+"create") {
+				gates = append(gates, okEdges(x)...)
+			}
+			_, ctlFalse, _ := boolParamEdges(f)
+			gates = append(gates, ctlFalse...)
+			for _, b := range f.Blocks {
+				for _, in := range b.Instrs {
+					var sent ssa.Value
+					switch x := in.(type) {
+					case *ssa.Send:
+						sent = x.X
+					case *ssa.Select:
+						for _, st := range x.States {
+							if st.Dir == types.SendOnly {
+								sent = st.Send
+							}
+						}
+					}
+					if sent == nil || !strings.HasSuffix(sent.Type().String(), "revision.currentDesired") {
+						continue
+					}
+					sends++
+					c.requireCross(load.FuncName(f)+": object handed over only after its dry run #"+itoa(sends), in, gates, "ok(e.update/e.create(..., DryRunAll)) or control==false")
+				}
+			}
+		}
+		if sends == 0 || n < 1 {
+			c.R.Unknown(load.FuncName(val)+": validated objects", c.pos(val.Pos()), "expected the validated objects to be sent to the establish phase")
 		}
 	}
 
